@@ -209,7 +209,24 @@ pub fn run_case(id: &str, case: &Value) -> Value {
                     let e = IcmpEchoHeader::from_bytes([b[0], b[1], b[2], b[3]]);
                     vec![e.id as i64, e.seq as i64, if e.to_bytes()[..] == b[..4] { 1 } else { 0 }]
                 } else { vec![] };
-                json!({"ev": "ndp", "id": id, "bytes": b, "steps": ndp_steps(&c, icmpv6::NdpOptionsIterator::from_slice(&b)), "oh": oh, "echo": echo})
+                // the typed option slices as doors of their own (the whole slice is the option): verdict / error kind per option type
+                fn ek<T>(r: Result<T, icmpv6::NdpOptionReadError>) -> &'static str {
+                    use icmpv6::NdpOptionReadError::*;
+                    match r {
+                        Ok(_) => "ok",
+                        Err(UnexpectedEndOfSlice { .. }) => "UnexpectedEndOfSlice",
+                        Err(ZeroLength { .. }) => "ZeroLength",
+                        Err(UnexpectedSize { .. }) => "UnexpectedSize",
+                        Err(UnexpectedHeader { .. }) => "UnexpectedHeader",
+                        Err(_) => "Other",
+                    }
+                }
+                let direct = json!([
+                    [1, ek(icmpv6::SourceLinkLayerAddressOptionSlice::from_slice(&b))], [2, ek(icmpv6::TargetLinkLayerAddressOptionSlice::from_slice(&b))],
+                    [3, ek(icmpv6::PrefixInformationOptionSlice::from_slice(&b))], [4, ek(icmpv6::RedirectedHeaderOptionSlice::from_slice(&b))],
+                    [5, ek(icmpv6::MtuOptionSlice::from_slice(&b))], [-1, ek(icmpv6::UnknownNdpOptionSlice::from_slice(&b))],
+                    [-3, ek(icmpv6::PrefixInformation::from_slice(&b))]]);
+                json!({"ev": "ndp", "id": id, "bytes": b, "steps": ndp_steps(&c, icmpv6::NdpOptionsIterator::from_slice(&b)), "oh": oh, "echo": echo, "direct": direct})
             }
             "igmp" => match IgmpHeader::from_slice(&b) {
                 Err(e) => json!({"ev": "igmp", "id": id, "bytes": b, "ok": 0, "req": e.required_len, "len": e.len, "kind": "", "hlen": -1, "norm": [], "rest": [-1, -1]}),
